@@ -254,6 +254,16 @@ fn emit_rt_ms(out: &mut Out, ctx: CtxK, n: &Node) {
     }
 }
 
+fn text_forms<Pk: KeyOf + Atom, Ctx: ScriptContext>(n: &Node) -> Option<(String, String, String, String, String)> {
+    catch_unwind(AssertUnwindSafe(|| {
+        let ms = ast::to_ms::<Pk, Ctx>(n).ok()?;
+        let t: Miniscript<String, Ctx> = ms.translate_pk(&mut ToIds).ok()?;
+        let f = |s: String| rawpkh_hex_to_ids(&s);
+        Some((f(t.to_string()), f(t.as_inner().to_string()), f(format!("{:?}", t).replace("0x", "")), f(format!("{:?}", t.as_inner()).replace("0x", "")),
+              { let a = f(format!("{:#}", t)); let ta = f(format!("{:#}", t.as_inner())); if ta == a { a } else { format!("{}|Terminal:{}", a, ta) } }))
+    })).unwrap_or(None)
+}
+
 fn emit_tree_ops(out: &mut Out, ctx: CtxK, n: &Node) {
     let ids = match ctx {
         CtxK::Bare => id_string::<PublicKey, BareCtx>(n),
@@ -262,6 +272,22 @@ fn emit_tree_ops(out: &mut Out, ctx: CtxK, n: &Node) {
         CtxK::Tap => id_string::<XOnlyPublicKey, Tap>(n),
     };
     if ids == "ERR" { return; }
+    // the other text forms of the same object: Display / Debug of the Miniscript and of its Terminal
+    let forms = match ctx {
+        CtxK::Bare => text_forms::<PublicKey, BareCtx>(n),
+        CtxK::Legacy => text_forms::<PublicKey, Legacy>(n),
+        CtxK::Segwitv0 => text_forms::<PublicKey, Segwitv0>(n),
+        CtxK::Tap => text_forms::<XOnlyPublicKey, Tap>(n),
+    };
+    if let Some((d, t, g, tg, alt)) = forms {
+        out.line(&format!("J textforms {} {} {} {} {}", ctx.name(), hex(&d), hex(&t), hex(&g), hex(&tg)), "ok");
+        // `{:#}` of a miniscript is not a documented text form; it differs from Display where a lock time occurs
+        // `{:#}` is the same text (fixed in c7695b28: a lock time printed as `block-height N`)
+        // a HASH still prints as `0x…` under `{:#}` (rust-bitcoin's alternate hex form), which no parser reads: judged on
+        // designated probes (run_alt_probes); every other object containing a raw key hash is only counted here
+        if d.contains("expr_raw") { out.count("alttext raw-key-hash object (hash prints as 0x… under {:#}; see the probes)"); }
+        else { out.line(&format!("J alttext ms-{} {} {}", ctx.name(), hex(&d), hex(&alt)), "ok"); }
+    }
     out.line(&format!("C mstree {} {}", ctx.name(), n.wire()), &ids);
     out.line(&format!("C msparse {} {}", ctx.name(), hex(&ids)), &msparse_ctx(ctx, &ids));
 }
@@ -354,7 +380,7 @@ fn bx(n: Node) -> Box<Node> { Box::new(n) }
 
 /// every sugar shape, stacked wrappers, wrapper + sugar interaction, sorted multis; candidates are
 /// filtered by the library's own type checker (`to_ms`), so only constructible objects are used
-fn sugar_nodes(ctx: CtxK) -> Vec<Node> {
+pub(crate) fn sugar_nodes(ctx: CtxK) -> Vec<Node> {
     use Node::*;
     let ks = ast::ctx_keys(ctx, 3);
     let (k0, k1, k2) = (ks[0], ks[1], ks[2]);
@@ -412,6 +438,51 @@ fn sugar_nodes(ctx: CtxK) -> Vec<Node> {
     v.push(Thresh(1, vec![pk(k0)]));
     v.push(Thresh(2, vec![pk(k0), Swap(bx(pk(k1))), Alt(bx(OrI(bx(False), bx(pk(k2)))))]));
     v.push(Thresh(1, vec![sugar_u(pk(k0)), Alt(bx(sugar_l(Older(10)))), Swap(bx(AndOr(bx(pk(k1)), bx(pk(k2)), bx(False))))]));
+    // R5: casts (t: l: u: sugar, pk / pkh, and_n) INSIDE every combinator and under wrapper towers
+    {
+        let t = |x: Node| AndV(bx(Verify(bx(x))), bx(True));          // tv:X  (B)
+        let l = |x: Node| OrI(bx(False), bx(x));
+        let u = |x: Node| OrI(bx(x), bx(False));
+        let an = |x: Node, y: Node| AndOr(bx(x), bx(y), bx(False));
+        let casts: Vec<Node> = vec![t(pk(k0)), l(pk(k1)), u(pkh(k2)), an(pk(k0), pkh(k1)), l(Older(10)), u(After(100)), t(Hash(HK::Sha256, 0)),
+                                    l(u(pk(k0))), u(l(pkh(k1))), t(l(pk(k2))), an(l(pk(k0)), u(pk(k1)))];
+        for a in &casts { for b in &casts {
+            v.push(AndB(bx(a.clone()), bx(Alt(bx(b.clone())))));
+            v.push(AndB(bx(a.clone()), bx(Swap(bx(b.clone())))));
+            v.push(OrB(bx(a.clone()), bx(Alt(bx(b.clone())))));
+            v.push(OrD(bx(a.clone()), bx(b.clone())));
+            v.push(OrI(bx(a.clone()), bx(b.clone())));
+            v.push(AndV(bx(Verify(bx(a.clone()))), bx(b.clone())));
+            v.push(OrC(bx(a.clone()), bx(Verify(bx(b.clone())))));
+            v.push(AndOr(bx(a.clone()), bx(b.clone()), bx(casts[0].clone())));
+            v.push(AndOr(bx(a.clone()), bx(b.clone()), bx(False)));
+        } }
+        for a in &casts {
+            v.push(Thresh(2, vec![a.clone(), Alt(bx(casts[1].clone())), Swap(bx(casts[2].clone())), Alt(bx(casts[3].clone()))]));
+            v.push(NonZero(bx(a.clone()))); v.push(ZeroNotEqual(bx(a.clone()))); v.push(DupIf(bx(Verify(bx(a.clone())))));
+            v.push(AndV(bx(Verify(bx(ZeroNotEqual(bx(a.clone()))))), bx(True)));
+            v.push(OrI(bx(False), bx(AndV(bx(Verify(bx(a.clone()))), bx(True)))));
+        }
+    }
+    // R2: refused TODAY by the sanity rules for exactly one reason (repeated key in every pair of occurrence kinds,
+    // mixed lock units, sigless branch, malleable): they round-trip through the permissive parser, and `J rtsane`
+    // (entry-point model) decides what the default parsers must do with them
+    {
+        let mk = |ks: Vec<u32>| if ctx == CtxK::Tap { MultiA(1, ks) } else { Multi(1, ks) };
+        v.push(OrD(bx(pk(k0)), bx(AndV(bx(Verify(bx(pkh(k0)))), bx(Older(10))))));
+        v.push(AndV(bx(Verify(bx(pk(k0)))), bx(pk(k0))));
+        v.push(AndV(bx(Verify(bx(pkh(k1)))), bx(pkh(k1))));
+        v.push(AndV(bx(Verify(bx(pk(k0)))), bx(mk(vec![k0, k1]))));
+        v.push(AndV(bx(Verify(bx(pkh(k1)))), bx(mk(vec![k0, k1]))));
+        v.push(mk(vec![k2, k2]));
+        v.push(AndB(bx(mk(vec![k0, k1])), bx(Alt(bx(mk(vec![k1, k2]))))));
+        v.push(OrI(bx(AndV(bx(Verify(bx(pk(k0)))), bx(Older(10)))), bx(AndV(bx(Verify(bx(pk(k1)))), bx(Older(4194305))))));   // two units, different paths: sane
+        v.push(AndV(bx(Verify(bx(pk(k0)))), bx(AndV(bx(Verify(bx(Older(10)))), bx(Older(4194305))))));                       // same path: mixed
+        v.push(AndV(bx(Verify(bx(pk(k0)))), bx(AndV(bx(Verify(bx(After(100)))), bx(After(500000001))))));
+        v.push(OrI(bx(pk(k0)), bx(Older(10))));                          // a branch without signature
+        v.push(OrB(bx(Hash(HK::Sha256, 0)), bx(Alt(bx(Hash(HK::Hash160, 1))))));
+        v.push(AndV(bx(Verify(bx(pk(k0)))), bx(OrI(bx(Hash(HK::Sha256, 0)), bx(Hash(HK::Sha256, 0))))));   // malleable
+    }
     // raw public key hashes: the three shapes that failed before b17364cb (bare: unparseable name;
     // c: folded into the name of the bare fragment), in every context, plus mixed forms
     let rp = if ctx == CtxK::Tap { 200 } else { 0 };
@@ -424,7 +495,7 @@ fn sugar_nodes(ctx: CtxK) -> Vec<Node> {
     v.into_iter().filter(|n| constructible(ctx, n)).collect()
 }
 
-fn constructible(ctx: CtxK, n: &Node) -> bool {
+pub(crate) fn constructible(ctx: CtxK, n: &Node) -> bool {
     match ctx {
         CtxK::Bare => ast::to_ms::<PublicKey, BareCtx>(n).is_ok(),
         CtxK::Legacy => ast::to_ms::<PublicKey, Legacy>(n).is_ok(),
@@ -626,6 +697,9 @@ pub fn run_roundtrip(out: &mut Out, thorough: bool, rng: &mut Rng) {
     let km = key_material();
     let wps = run_wallet(out, &km);
     run_malformed_other(out, thorough, rng, &descs, &pols, &wps, &km);
+    gap::run_alt_probes(out);
+    gap::run_routes(out, thorough, rng, &km);
+    gap::run_raw_strings(out, &km);
     gap::run_key_values(out, &km);
     gap::run_secret_descriptors(out, &km);
     let _ = gap::run_definite(out, &km);
@@ -635,7 +709,8 @@ pub fn run_roundtrip(out: &mut Out, thorough: bool, rng: &mut Rng) {
     gap::run_keyforms(out, &km);
     gap::run_numargs(out);
     gap::run_absurd(out, thorough, rng, &km, &descs);
-    out.note("c10b_scope", "miniscripts (4 contexts, all base types, every sugar shape, stacked wrappers), descriptors (all wrappers, all key forms, tap trees to depth 128, secret keys), keys, concrete/semantic policies incl. API-only shapes, wallet policies; malformed stream to every parser".into());
+    out.note("c10b_scope", "objects: miniscripts (4 contexts, all base types; hand corpus = every sugar shape, wrapper stacks, casts inside every combinator, refused-today scripts; ast::dimension_corpus incl. wrapper towers; enumerated + random), descriptors (all wrappers, every key form, all tap-tree shapes <= 5 leaves, combs and sibling pairs to depth 128), keys and secret keys (parser- and struct-built), policies (string / real keys, API-only shapes), wallet policies. ROUTES, whole designated corpus in quick: from_str (permissive + default parsers), from_ast + constructors (new_wsh / new_sh_wsh / new_sh / new_bare / new_tr / Tr::new / TapTree::leaf+combine / new_pk / new_pkh / new_wpkh / new_sh_wpkh), translate_pk (to id strings and to DescriptorPublicKey), derived_descriptor, at_derivation_index, into_single_descriptors, parse_descriptor / to_string_with_secret, compiler output (compile, compile_tr), the per-wrapper types Bare/Pkh/Wpkh/Sh/Wsh/Tr. TEXT FORMS: Display, {:#} (descriptors), Display and Debug of Miniscript and Terminal (J textforms). STATES: fresh, after script_pubkey/address/spend_info, clones, pairs of used objects incl. mirrored trees. RAW: every string of length <= 2 and length neighbours of every key / checksum / fingerprint constant to 18 parsers".into());
+    out.note("domain", "text round trips: see c10b_scope".into());
 }
 
 /* ============================================================ descriptors, keys, policies */
@@ -793,7 +868,7 @@ fn scripts_of(km: &KeyMaterial, d: &Descriptor<DescriptorPublicKey>) -> Option<V
     Some(out)
 }
 
-fn rt_desc_token(km: &KeyMaterial, x: &Descriptor<DescriptorPublicKey>, s: &str) -> String {
+pub(crate) fn rt_desc_token(km: &KeyMaterial, x: &Descriptor<DescriptorPublicKey>, s: &str) -> String {
     guard(|| {
         let y = match Descriptor::<DescriptorPublicKey>::from_str(s) {
             Ok(y) => y,
@@ -860,6 +935,13 @@ fn shp_depth128() -> Vec<Shp> {
         shp_spine(127, true, shp_pair()), shp_spine(126, true, Shp::N(Box::new(Shp::L), Box::new(shp_pair()))),
     ]
 }
+/// every binary tree shape with exactly `n` leaves (Catalan(n-1) of them)
+fn shp_all(n: usize) -> Vec<Shp> {
+    if n == 1 { return vec![Shp::L]; }
+    let mut v = vec![];
+    for k in 1..n { for l in shp_all(k) { for r in shp_all(n - k) { v.push(Shp::N(Box::new(l.clone()), Box::new(r))); } } }
+    v
+}
 fn shp_build(shape: &Shp, leaves: &[Arc<Miniscript<DescriptorPublicKey, Tap>>], next: &mut usize) -> Option<TapTree<DescriptorPublicKey>> {
     match shape {
         Shp::L => { let t = TapTree::leaf(leaves[*next % leaves.len()].clone()); *next += 1; Some(t) }
@@ -868,7 +950,7 @@ fn shp_build(shape: &Shp, leaves: &[Arc<Miniscript<DescriptorPublicKey, Tap>>], 
 }
 
 /// key ids of the neutral AST → descriptor keys of assorted forms
-struct ToDescKeys { full: Vec<DescriptorPublicKey>, xonly: Vec<DescriptorPublicKey> }
+pub(crate) struct ToDescKeys { pub full: Vec<DescriptorPublicKey>, pub xonly: Vec<DescriptorPublicKey> }
 impl Translator<PublicKey> for ToDescKeys {
     type TargetPk = DescriptorPublicKey;
     type Error = ();
@@ -936,6 +1018,8 @@ fn run_desc(out: &mut Out, thorough: bool, rng: &mut Rng, ms: &BTreeMap<CtxK, Ve
     for n in 2..=(if thorough { 40 } else { 12 }) { shapes.push(shp_random(n, rng)); }
     for d in [1usize, 2, 31, 64, 127, 128] { shapes.push(shp_comb(d, rng)); }
     shapes.extend(shp_depth128());
+    // every shape with up to 5 leaves (1+1+2+5+14): all depth jumps after a comma, nested branch as first / last child
+    for n in 1..=5 { shapes.extend(shp_all(n)); }
     for _ in 0..(if thorough { 40 } else { 6 }) { shapes.push(shp_comb(1 + rng.below(128), rng)); }
     for sh in &shapes {
         let ik = key_or_fallback(out, &xk[rng.below(xk.len())], true);
